@@ -54,6 +54,9 @@ func (e *xmlEncoder) Encode(writer io.Writer, node *CandidateNode) error {
 			value := node.Content[i+1]
 
 			if key.Value == (e.prefs.ProcInstPrefix + "xml") {
+				if err := xmlScalarOnly(value, "processing instruction"); err != nil {
+					return err
+				}
 				name := strings.Replace(key.Value, e.prefs.ProcInstPrefix, "", 1)
 				procInst := xml.ProcInst{Target: name, Inst: []byte(value.Value)}
 				if err := encoder.EncodeToken(procInst); err != nil {
@@ -104,6 +107,14 @@ func (e *xmlEncoder) Encode(writer io.Writer, node *CandidateNode) error {
 
 }
 
+// processing instructions, directives and content are text: a map or sequence there cannot be written
+func xmlScalarOnly(value *CandidateNode, what string) error {
+	if value.Kind != ScalarNode {
+		return fmt.Errorf("cannot use %v as %v, only scalars are supported", value.Tag, what)
+	}
+	return nil
+}
+
 func (e *xmlEncoder) encodeTopLevelMap(encoder *xml.Encoder, node *CandidateNode) error {
 	err := e.encodeComment(encoder, headAndLineComment(node))
 	if err != nil {
@@ -130,6 +141,9 @@ func (e *xmlEncoder) encodeTopLevelMap(encoder *xml.Encoder, node *CandidateNode
 		if key.Value == (e.prefs.ProcInstPrefix + "xml") { //nolint
 			// dont double process these.
 		} else if strings.HasPrefix(key.Value, e.prefs.ProcInstPrefix) {
+			if err := xmlScalarOnly(value, "processing instruction"); err != nil {
+				return err
+			}
 			name := strings.Replace(key.Value, e.prefs.ProcInstPrefix, "", 1)
 			procInst := xml.ProcInst{Target: name, Inst: []byte(value.Value)}
 			if err := encoder.EncodeToken(procInst); err != nil {
@@ -139,6 +153,9 @@ func (e *xmlEncoder) encodeTopLevelMap(encoder *xml.Encoder, node *CandidateNode
 				log.Warning("Unable to write newline, skipping: %w", err)
 			}
 		} else if key.Value == e.prefs.DirectiveName {
+			if err := xmlScalarOnly(value, "directive"); err != nil {
+				return err
+			}
 			var directive xml.Directive = []byte(value.Value)
 			if err := encoder.EncodeToken(directive); err != nil {
 				return err
@@ -298,17 +315,26 @@ func (e *xmlEncoder) encodeMap(encoder *xml.Encoder, node *CandidateNode, start 
 			return err
 		}
 		if strings.HasPrefix(key.Value, e.prefs.ProcInstPrefix) {
+			if err := xmlScalarOnly(value, "processing instruction"); err != nil {
+				return err
+			}
 			name := strings.Replace(key.Value, e.prefs.ProcInstPrefix, "", 1)
 			procInst := xml.ProcInst{Target: name, Inst: []byte(value.Value)}
 			if err := encoder.EncodeToken(procInst); err != nil {
 				return err
 			}
 		} else if key.Value == e.prefs.DirectiveName {
+			if err := xmlScalarOnly(value, "directive"); err != nil {
+				return err
+			}
 			var directive xml.Directive = []byte(value.Value)
 			if err := encoder.EncodeToken(directive); err != nil {
 				return err
 			}
 		} else if key.Value == e.prefs.ContentName {
+			if err := xmlScalarOnly(value, "content"); err != nil {
+				return err
+			}
 			// directly encode the contents
 			err = e.encodeComment(encoder, headAndLineComment(value))
 			if err != nil {
